@@ -275,3 +275,35 @@ func VerifC01_EntriesSync() {
 		verif_Assert(p >= start && p < start+len(want), "every request starts inside the requested segment")
 	}
 }
+
+// C01: segmented traversal over a longer chain: the remaining-depth arithmetic
+// across three and more segments. Depth limit and segment size are symbolic;
+// the blocks reported must not depend on the segment size.
+func VerifC01_SegmentedDepth() {
+	n := 6 + verif_Tier()*2
+	chain := c01chain(n)
+	N := int64(n)
+	depth := c01int("adsDepthLimit", 1, N+2)
+	seg := c01int("segDepthLimit", 1, N+2)
+	v := newVSub(chain, depth, 0, seg, true)
+	stopPos := verif_Choose("latestSyncPos", n-2, n) // n = none; otherwise near the end of the chain
+	stop := cid.Undef
+	if stopPos < n {
+		stop = chain[stopPos]
+		verif_Assume(v.s.SetLatestSync(v.peer.ID, stop) == nil)
+	}
+	got, err := v.s.SyncAdChain(context.Background(), v.peer)
+	verif_Reach("synced")
+	want := c01want(chain, 0, stop, depth)
+	verif_Assert(err == nil && got == chain[0], "the sync succeeds and returns the head")
+	verif_Assert(c01sameLog(v.log, want), "a depth-limited segmented sync reports exactly the blocks within the depth limit, whatever the segment size")
+	ev := v.drain()
+	verif_Assert(len(ev) == 1 && ev[0].Count == len(want), "the notification counts exactly those blocks")
+	total := int64(0)
+	for _, r := range v.sy.reqs {
+		p := v.sy.pos(r.start)
+		verif_Assert(p >= 0 && p < len(want), "every segment starts inside the requested range")
+		total++
+	}
+	verif_Assert(total >= 1, "at least one request")
+}
